@@ -48,6 +48,13 @@ def harnesses(ctx, tier):
     if tier == "thorough":
         for op in DBL_ARITH[2:]:
             hs.append(op_h(op, 2, 1, timeout=3000))
+    Q = {1: "$a", 2: "$a at k", 3: "$a in (a..b)", 4: "#a", 5: "#a in (a..b)", 6: "@a[i]", 7: "!a[i]", 8: "q of ($a,$b)", 9: "p% of ($a,$b)"}
+    for q, what in Q.items():
+        hs.append(Harness(name="H2_query_%d" % q, src="c04/strq.c", defines=["-DVF_Q=%d" % q], unwind=12, timeout=600,
+                          unwind_funcs={"yr_arena_ptr_to_ref": 4, "main": 5},
+                          desc="string-match query `%s` through the real VM on an arbitrary sorted match list vs set semantics" % what,
+                          bounds="<= 3 matches (offsets < 2^47, ascending) for $a, <= 1 for $b; all 64-bit operands incl. undefined",
+                          functions=EXEC_FUNCS, stubs=EXEC_STUBS))
     return hs
 
 LEVEL_TEXT = ("Bounded model checking of the real interpreter: for each opcode the solver covers every 64-bit operand value "
